@@ -112,6 +112,14 @@ def effective_owners(ctx, nid, depth=0):
     return out
 
 
+def owned_by(ctx, nid, allowed):
+    """-> (ok, name): every known function the body `nid` acts for (see effective_owners) matches one of `allowed`
+    (suffix patterns); name is the owner to show in the key when ok, else nid."""
+    owners = [o.split('::{')[0] for o in effective_owners(ctx, nid)]
+    ok = all(any(o == a or o.endswith('::' + a) or path_matches(o, a) for a in allowed) for o in owners)
+    return ok, (owners[0] if ok and owners else nid)
+
+
 def who_calls(ctx, rule, callee_pat, allowed, floor=1, what=None):
     """K3: every caller of callee_pat is in `allowed` (list of body patterns)."""
     sites = ctx.facts.callers(callee_pat)
